@@ -523,7 +523,7 @@ class TT():
                 raise IncompatibleTypes(
                     'Addition between a tensor and a matrix is not defined.')
         else:
-            InvalidArguments('Second term is incompatible.')
+            raise InvalidArguments('Second term is incompatible.')
 
         return result
 
@@ -653,7 +653,7 @@ class TT():
                 raise IncompatibleTypes(
                     'Addition between a tensor and a matrix is not defined.')
         else:
-            InvalidArguments(
+            raise InvalidArguments(
                 'Second term is incompatible (must be either torchtt.TT or int or float or torch.tensor with 1 element).')
 
         return result
